@@ -72,3 +72,19 @@ def bump(stats, group, key, n=1):
         return
     g = stats.setdefault(group, {})
     g[key] = g.get(key, 0) + n
+
+
+def await_site(task):
+    """Where a pending task is suspended: function names along its await chain (no line numbers)."""
+    names = []
+    obj = task.get_coro()
+    for _ in range(12):
+        if obj is None:
+            break
+        code = getattr(obj, "cr_code", None) or getattr(obj, "ag_code", None) or getattr(obj, "gi_code", None)
+        if code is None:
+            break
+        names.append(code.co_name)
+        obj = (getattr(obj, "cr_await", None) or getattr(obj, "ag_await", None)
+               or getattr(obj, "gi_yieldfrom", None))
+    return ">".join(names[-3:])
